@@ -1285,15 +1285,26 @@ impl Fails {
 }
 
 fn parse_case(_ctx: &Ctx, p: Parser, input: &[u8], l: &mut PLocal, wit: &dyn Fn() -> String) {
+    parse_case_j(p, input, l, wit, false)
+}
+
+/// `judge`: an accepted message must also survive write -> parse as an equal message.
+fn parse_case_j(p: Parser, input: &[u8], l: &mut PLocal, wit: &dyn Fn() -> String, judge: bool) {
     l.evals += 1;
     match guard(|| p.run(input)) {
-        Err(pn) => { *l.out.entry("PANIC").or_insert(0) += 1; l.fails.push((format!("C11.parse.nopanic.{}", p.name()), wit(), format!("{pn}; input {}", trunc(&hex(input), 200)))) }
+        Err(pn) => { *l.out.entry("PANIC").or_insert(0) += 1; l.fails.push((format!("C11.parse.nopanic.{}", p.name()), wit(), format!("{pn}; input {}", trunc(&String::from_utf8_lossy(input), 300)))) }
         Ok(Err(class)) => *l.out.entry(class).or_insert(0) += 1,
         Ok(Ok(again)) => {
-            // informational only: accepted deviating documents need not hold protocol-valid fields
             match guard(again) {
                 Err(pn) => { *l.out.entry("PANIC").or_insert(0) += 1; l.fails.push((format!("C11.parse.nopanic.{}", p.name()), wit(), format!("re-encoding / re-parsing the accepted message panicked: {pn}"))) }
                 Ok(Some(true)) => *l.out.entry("accepted").or_insert(0) += 1,
+                Ok(r) if judge => {
+                    *l.out.entry("accepted-ROUNDTRIP-DIFFERS").or_insert(0) += 1;
+                    let oracle = if r.is_none() { "C11.grammar.roundtrip.parse" } else { "C11.grammar.roundtrip.equal" };
+                    l.fails.push((oracle.into(), wit(), format!("the parser accepts the document, but writing the accepted message and parsing it again {}; document: {}",
+                        if r.is_none() { "fails" } else { "gives an unequal message" }, trunc(&String::from_utf8_lossy(input), 400))));
+                }
+                // informational only: accepted deviating documents need not hold protocol-valid fields
                 Ok(_) => { *l.out.entry("accepted-but-own-roundtrip-differs").or_insert(0) += 1; if l.notrt.len() < 2 { l.notrt.push(wit()) } }
             }
         }
@@ -1334,6 +1345,161 @@ fn seed_documents(fx: &Fx) -> Vec<(&'static str, Parser, Vec<u8>)> {
         ("idex.publisher_request", Parser::Publisher, idx::PublisherRequest::new(id.clone(), fx.handle(0), t()).to_xml_vec()),
         ("idex.repository_response", Parser::Repo, idx::RepositoryResponse::new(id, fx.handle(0), fx.services[fx.svc_plain].clone(), fx.rsyncs[3].clone(), Some(fx.httpss[4].clone()), t()).to_xml_vec()),
     ]
+}
+
+//============ Parsers on every arrangement of the element kinds ============
+//
+// Grammar-level deviations: not bytes of one document, but every ordered
+// sequence of at most three child elements, over ALL element kinds of the
+// namespace (valid instances of each, plus a foreign element, text and a
+// comment), inside every envelope and every nesting context -- including the
+// kinds that do not belong there.
+
+fn sequences(n: usize, max: u32) -> Vec<Vec<usize>> {
+    let total = rpki_verif::engine::enumerate::seq_count(n as u64, max);
+    let mut s = Vec::new();
+    (0..total).map(|i| { rpki_verif::engine::enumerate::seq_at(n as u64, max, i, &mut s); s.clone() }).collect()
+}
+
+fn space_grammar(ctx: &Ctx, fx: &Fx) {
+    let sp = ctx.space("parse.grammar",
+        "for every envelope / nesting context of the three protocols (publication: msg type=query, type=reply, children of report_error, children of failed_pdu; provisioning: message of each of the 7 types, children of class in list_response and issue_response; RFC 8183: each of the 4 root elements into each of the 4 parsers) every ordered sequence of 0..=3 children over all element kinds of that namespace (valid instances; plus a foreign element, a text node and a comment); the parser must not panic, and a message it accepts must be written and parsed back equal (sequences holding a report_error without error_text are judged for panics only, see DESIGN 4.2); non-trivial = every document (all distinct)");
+    let h = fx.hashes[2];
+    let b64 = |b: &[u8]| base64::Engine::encode(&base64::engine::general_purpose::STANDARD, b);
+    let cert = b64(fx.certs[0].1.to_captured().as_slice());
+    let cert2 = b64(fx.certs[1 % fx.certs.len()].1.to_captured().as_slice());
+    let csr = b64(fx.csrs[0].1.to_captured().as_slice());
+    let ski = base64::Engine::encode(&base64::engine::general_purpose::URL_SAFE_NO_PAD, fx.keys[2].as_slice());
+
+    // (context name, parser, prefix, suffix, kinds, judge-equality-exempt kind names)
+    // `needs`: a kind that has to be among the children for the equality of an accepted message to be judged
+    // (a report_error without an error_text child is re-encoded with the default text on purpose, DESIGN 4.2)
+    struct Ctxt { name: String, parser: Parser, pre: String, post: String, kinds: Vec<(&'static str, String)>, needs: Option<&'static str> }
+    let mut ctxts: Vec<Ctxt> = Vec::new();
+
+    // --- RFC 8181
+    let pub_kinds: Vec<(&'static str, String)> = vec![
+        ("list", "<list/>".into()),
+        ("list-element", format!("<list uri=\"rsync://h/m/a\" hash=\"{h}\"/>")),
+        ("publish", "<publish tag=\"t\" uri=\"rsync://h/m/a\">QUJD</publish>".into()),
+        ("publish-no-tag", "<publish uri=\"rsync://h/m/b\">QUJD</publish>".into()),
+        ("publish-empty", "<publish tag=\"t\" uri=\"rsync://h/m/e\"/>".into()),
+        ("update", format!("<publish tag=\"t\" uri=\"rsync://h/m/a\" hash=\"{h}\">QUJD</publish>")),
+        ("withdraw", format!("<withdraw tag=\"t\" uri=\"rsync://h/m/a\" hash=\"{h}\"/>")),
+        ("success", "<success/>".into()),
+        ("report_error", "<report_error error_code=\"other_error\"><error_text>t</error_text></report_error>".into()),
+        ("report_error-tag-failed_pdu", format!("<report_error error_code=\"no_object_present\" tag=\"t\"><error_text>t</error_text><failed_pdu><withdraw tag=\"t\" uri=\"rsync://h/m/a\" hash=\"{h}\"/></failed_pdu></report_error>")),
+        ("report_error-no-text", "<report_error error_code=\"xml_error\"/>".into()),
+        ("error_text", "<error_text>t</error_text>".into()),
+        ("failed_pdu", "<failed_pdu><publish tag=\"t\" uri=\"rsync://h/m/a\">QUJD</publish></failed_pdu>".into()),
+        ("foreign-key", format!("<key class_name=\"a\" ski=\"{ski}\"/>")),
+        ("text", "x".into()),
+        ("comment", "<!-- c -->".into()),
+    ];
+    let msg = |t: &str| format!("<msg xmlns=\"{PUB_NS}\" version=\"4\" type=\"{t}\">");
+    for t in ["query", "reply"] {
+        ctxts.push(Ctxt { name: format!("pub.msg[{t}]"), parser: Parser::Pub, pre: msg(t), post: "</msg>".into(), kinds: pub_kinds.clone(), needs: None });
+    }
+    ctxts.push(Ctxt { name: "pub.msg[reply]/report_error".into(), parser: Parser::Pub,
+        pre: format!("{}<report_error error_code=\"other_error\" tag=\"t\">", msg("reply")), post: "</report_error></msg>".into(), kinds: pub_kinds.clone(), needs: Some("error_text") });
+    ctxts.push(Ctxt { name: "pub.msg[reply]/report_error/failed_pdu".into(), parser: Parser::Pub,
+        pre: format!("{}<report_error error_code=\"other_error\"><error_text>t</error_text><failed_pdu>", msg("reply")), post: "</failed_pdu></report_error></msg>".into(), kinds: pub_kinds.clone(), needs: None });
+    ctxts.push(Ctxt { name: "pub.msg[reply]/list-element,report_error,..".into(), parser: Parser::Pub,
+        pre: format!("{}<list uri=\"rsync://h/m/z\" hash=\"{h}\"/><report_error error_code=\"other_error\"><error_text>t</error_text></report_error>", msg("reply")), post: "</msg>".into(), kinds: pub_kinds.clone(), needs: None });
+
+    // --- RFC 6492
+    let class_attrs = "class_name=\"a\" cert_url=\"rsync://h/m/a.cer\" resource_set_as=\"AS1\" resource_set_ipv4=\"10.0.0.0/8\" resource_set_ipv6=\"\" resource_set_notafter=\"2030-01-02T03:04:05Z\"";
+    let certificate = format!("<certificate cert_url=\"rsync://h/m/c.cer\" req_resource_set_as=\"AS1\">{cert2}</certificate>");
+    let certificate2 = format!("<certificate cert_url=\"rsync://h/m/d.cer\" req_resource_set_ipv4=\"10.0.0.0/8\" req_resource_set_ipv6=\"2001:db8::/32\">{cert}</certificate>");
+    let certificate_plain = format!("<certificate cert_url=\"rsync://h/m/e.cer\">{cert}</certificate>");
+    let issuer = format!("<issuer>{cert}</issuer>");
+    let prov_small: Vec<(&'static str, String)> = vec![
+        ("certificate", certificate.clone()),
+        ("certificate-v4v6-limit", certificate2.clone()),
+        ("certificate-no-limit", certificate_plain.clone()),
+        ("certificate-no-url", format!("<certificate>{cert}</certificate>")),
+        ("issuer", issuer.clone()),
+        ("key", format!("<key class_name=\"a\" ski=\"{ski}\"/>")),
+        ("status", "<status>1201</status>".into()),
+        ("description", "<description xml:lang=\"en-US\">d</description>".into()),
+        ("request", format!("<request class_name=\"a\" req_resource_set_as=\"AS1\">{csr}</request>")),
+        ("foreign-publish", "<publish uri=\"rsync://h/m/a\">QUJD</publish>".into()),
+        ("text", "x".into()),
+        ("comment", "<!-- c -->".into()),
+    ];
+    let mut prov_kinds = prov_small.clone();
+    prov_kinds.extend([
+        ("class", format!("<class {class_attrs}>{certificate}{issuer}</class>")),
+        ("class-no-certificate", format!("<class {class_attrs}>{issuer}</class>")),
+        ("class-two-certificates", format!("<class {class_attrs}>{certificate}{certificate_plain}{issuer}</class>")),
+        ("class-issuer-first", format!("<class {class_attrs}>{issuer}{certificate2}</class>")),
+        ("class-no-issuer", format!("<class {class_attrs}>{certificate}</class>")),
+        ("class-empty", format!("<class {class_attrs}/>")),
+    ]);
+    let message = |t: &str| format!("<message xmlns=\"{PROV_NS}\" version=\"1\" sender=\"s\" recipient=\"r\" type=\"{t}\">");
+    for t in ["list", "list_response", "issue", "issue_response", "revoke", "revoke_response", "error_response"] {
+        ctxts.push(Ctxt { name: format!("prov.message[{t}]"), parser: Parser::Prov, pre: message(t), post: "</message>".into(), kinds: prov_kinds.clone(), needs: None });
+    }
+    for t in ["list_response", "issue_response"] {
+        let mut kinds = prov_small.clone();
+        kinds.push(("class", format!("<class {class_attrs}>{issuer}</class>")));
+        ctxts.push(Ctxt { name: format!("prov.message[{t}]/class"), parser: Parser::Prov, pre: format!("{}<class {class_attrs}>", message(t)), post: "</class></message>".into(), kinds, needs: None });
+    }
+
+    // --- RFC 8183
+    let idex_kinds: Vec<(&'static str, String)> = vec![
+        ("child_bpki_ta", "<child_bpki_ta>QUJD</child_bpki_ta>".into()),
+        ("parent_bpki_ta", "<parent_bpki_ta>QUJD</parent_bpki_ta>".into()),
+        ("publisher_bpki_ta", "<publisher_bpki_ta>QUJD</publisher_bpki_ta>".into()),
+        ("repository_bpki_ta", "<repository_bpki_ta>QUJD</repository_bpki_ta>".into()),
+        ("parent_bpki_ta-empty", "<parent_bpki_ta/>".into()),
+        ("referral", "<referral referrer=\"r\">QUJD</referral>".into()),
+        ("offer", "<offer/>".into()),
+        ("foreign-success", "<success/>".into()),
+        ("text", "x".into()),
+        ("comment", "<!-- c -->".into()),
+    ];
+    let roots = [
+        ("child_request", "child_handle=\"c\" tag=\"t\""),
+        ("parent_response", "service_uri=\"https://h/x\" child_handle=\"c\" parent_handle=\"p\" tag=\"t\""),
+        ("publisher_request", "publisher_handle=\"p\" tag=\"t\""),
+        ("repository_response", "publisher_handle=\"p\" service_uri=\"https://h/x\" sia_base=\"rsync://h/m/\" rrdp_notification_uri=\"https://h/n.xml\" tag=\"t\""),
+    ];
+    for p in [Parser::Child, Parser::Parent, Parser::Publisher, Parser::Repo] {
+        for (root, attrs) in roots {
+            ctxts.push(Ctxt { name: format!("idex.{root}->{}", p.name()), parser: p,
+                pre: format!("<{root} xmlns=\"{SETUP_NS}\" version=\"1\" {attrs}>"), post: format!("</{root}>"), kinds: idex_kinds.clone(), needs: None });
+        }
+    }
+
+    let fails = Fails(Mutex::new(Vec::new()));
+    let notrt: Mutex<Vec<String>> = Mutex::new(Vec::new());
+    let mut sizes = Vec::new();
+    for c in &ctxts {
+        let seqs = sequences(c.kinds.len(), 3);
+        sizes.push(format!("{}: {} kinds, {} documents", c.name, c.kinds.len(), seqs.len()));
+        // the envelope with well-formed children must be well-formed, or the harness wrote a bad template
+        let probe = format!("{}{}{}", c.pre, c.kinds.iter().map(|k| k.1.as_str()).collect::<String>(), c.post);
+        if let Err(e) = wf_check(probe.as_bytes()) { ctx.machinery_error(format!("grammar context {} is not well-formed: {e}", c.name)) }
+        seqs.par_chunks(16).for_each(|chunk| {
+            let mut l = PLocal { evals: 0, out: BTreeMap::new(), notrt: Vec::new(), fails: Vec::new() };
+            for s in chunk {
+                let doc = format!("{}{}{}", c.pre, s.iter().map(|k| c.kinds[*k].1.as_str()).collect::<String>(), c.post);
+                let judge = !s.iter().any(|k| c.kinds[*k].0 == "report_error-no-text")
+                    && c.needs.is_none_or(|n| s.iter().any(|k| c.kinds[*k].0 == n));
+                parse_case_j(c.parser, doc.as_bytes(), &mut l, &|| format!("grammar ctx={} children=[{}]", c.name, s.iter().map(|k| c.kinds[*k].0).collect::<Vec<_>>().join(",")), judge);
+            }
+            fails.take(ctx, &mut l);
+            sp.evals(l.evals); sp.nontrivial(l.evals); sp.merge_outcomes(&l.out);
+            let mut n = notrt.lock().unwrap(); for w in l.notrt { if n.len() < 256 { n.push(w) } }
+        });
+    }
+    fails.report(ctx);
+    let mut n = notrt.lock().unwrap().clone(); n.sort(); n.truncate(8);
+    sp.set("accepted_unjudged_whose_own_roundtrip_differs_sample", serde_json::json!(n));
+    sp.set("contexts", serde_json::json!(sizes));
+    sp.sample_str(|| format!("{}{}{}{}", ctxts[1].pre, ctxts[1].kinds[8].1, ctxts[1].kinds[1].1, ctxts[1].post));
+    sp.done(true, &format!("{} contexts, all sequences of <= 3 children", ctxts.len()));
 }
 
 fn space_parsers(ctx: &Ctx, fx: &Fx) {
@@ -1453,6 +1619,7 @@ fn main() {
     space_provisioning(&ctx, &fx); lap("provisioning");
     space_idexchange(&ctx, &fx); lap("idexchange");
     space_seeds(&ctx, &fx); lap("seeds");
+    space_grammar(&ctx, &fx); lap("grammar");
     space_parsers(&ctx, &fx); lap("parsers");
     ctx.finish();
 }
